@@ -69,7 +69,7 @@ func limbs(v *big.Int) []int {
 	return out
 }
 
-func p2(k uint) *big.Int { return new(big.Int).Lsh(big.NewInt(1), k) }
+func p2(k uint) *big.Int  { return new(big.Int).Lsh(big.NewInt(1), k) }
 func bi(x int64) *big.Int { return big.NewInt(x) }
 func neg(x *big.Int) *big.Int {
 	return new(big.Int).Mod(new(big.Int).Neg(x), two256)
